@@ -5,8 +5,8 @@ package main
 // Shared by C01, C02, C07, C15.
 
 import (
-	"go/token"
 	"fmt"
+	"go/token"
 	"go/types"
 	"strings"
 
@@ -14,7 +14,7 @@ import (
 )
 
 type cacheModel struct {
-	c        *Ctx
+	c                               *Ctx
 	litCreate, litUpdate, litDelete string
 }
 
@@ -145,7 +145,7 @@ func (m *cacheModel) checkDoUpdate() {
 	ts := &tableSpec{
 		Rule:   rule,
 		Region: "doUpdate (whole function)",
-		Atoms: []atomSpec{{"parseOK", boolDom}, {"isDelete", boolDom}, {"found", boolDom}, {"accNew", boolDom}, {"ord", []string{"LT", "EQ", "GT"}}},
+		Atoms:  []atomSpec{{"parseOK", boolDom}, {"isDelete", boolDom}, {"found", boolDom}, {"accNew", boolDom}, {"ord", []string{"LT", "EQ", "GT"}}},
 		Lit: func(pa *Path, l Lit) litClass {
 			t := l.T
 			if x, ok := isNilTest(t); ok {
